@@ -89,6 +89,7 @@ let rec print (v : val0) : string =
 let functions : (string * (val0 -> val0)) list = [
   ("hub", hub_run);
   ("votes", votes_run);
+  ("sigset", sigset_run);
 ]
 
 (* monitors: (property, suite) -> case -> implementation output -> list of violations *)
@@ -101,6 +102,7 @@ let monitors : ((string * string) * (val0 -> val0 -> val0)) list = [
   (("C19", "hub"), mon_C19);
   (("C02", "votes"), mon_C02);
   (("C03", "votes"), mon_C03);
+  (("C09", "sigset"), mon_C09);
 ]
 
 let first_diff (a : val0) (b : val0) : int =
